@@ -39,6 +39,51 @@ theorem recs_cons (q : Prefix) (es : List Roa) (t : Table) (x : Rec) :
     · exact Or.inl ⟨x.2, h2, by cases x; simp_all⟩
     · exact Or.inr h
 
+/-! ### the table lists every record once -/
+
+theorem nodup_map_pair (q : Prefix) (es : List Roa) (h : es.Nodup) : (es.map fun r => (q, r)).Nodup := by
+  induction es with
+  | nil => simp
+  | cons x xs ih =>
+    rw [List.nodup_cons] at h
+    rw [List.map_cons, List.nodup_cons]
+    refine ⟨?_, ih h.2⟩
+    intro hm
+    rw [List.mem_map] at hm
+    obtain ⟨y, hy, e⟩ := hm
+    have : y = x := congrArg Prod.snd e
+    exact h.1 (this ▸ hy)
+
+theorem recs_nodup (t : Table) (h : WF t) : (recs t).Nodup := by
+  induction t with
+  | nil => simp [recs]
+  | cons c t ih =>
+    obtain ⟨q, es⟩ := c
+    rw [wf_cons] at h
+    have e : recs ((q, es) :: t) = (es.map fun r => (q, r)) ++ recs t := by simp [recs]
+    rw [e, List.nodup_append]
+    refine ⟨nodup_map_pair q es h.2.1, ih h.2.2, ?_⟩
+    intro a ha b hb hab
+    rw [List.mem_map] at ha
+    obtain ⟨r, _, rfl⟩ := ha
+    obtain ⟨es', hb', _⟩ := mem_recs.mp hb
+    exact h.1 _ hb' (by rw [← hab])
+
+/-- the prefixes counted for a source: each once, and exactly those under which it has a record -/
+theorem infoPrefixList_nodup (t : Table) (fam src : Nat) (h : WF t) : (infoPrefixList t fam src).Nodup := by
+  unfold infoPrefixList
+  exact (List.filter_sublist.map _).nodup h.1
+
+theorem mem_infoPrefixList (t : Table) (fam src : Nat) (p : Prefix) :
+    p ∈ infoPrefixList t fam src ↔ p.fam = fam ∧ ∃ r, (p, r) ∈ recs t ∧ r.src = src := by
+  simp only [infoPrefixList, List.mem_map, List.mem_filter, Bool.and_eq_true, beq_iff_eq, List.any_eq_true]
+  constructor
+  · rintro ⟨b, ⟨hb, hf, r, hr, hs⟩, rfl⟩
+    exact ⟨hf, r, mem_recs.mpr ⟨b.2, hb, hr⟩, hs⟩
+  · rintro ⟨hf, r, hr, hs⟩
+    obtain ⟨es, hb, hre⟩ := mem_recs.mp hr
+    exact ⟨(p, es), ⟨hb, hf, r, hre, hs⟩, rfl⟩
+
 /-! ### buckets -/
 
 theorem mem_insertSorted (r y : Roa) (es : List Roa) : y ∈ insertSorted r es ↔ y = r ∨ y ∈ es := by
